@@ -77,8 +77,23 @@ def _dna(draw):
     return {"kind": "dna", "bases": bases, "listings": listings, "rng": draw(st.integers(0, 2**31 - 1))}
 
 
+@st.composite
+def _multires(draw):
+    """residue graphs with multi-residue (from_itp) blocks, also consecutive copies of one block, under
+    relabelled node keys and permuted records"""
+    spec = draw(gp.multires_case())
+    n = len(spec["graph"]["nodes"])
+    ne = len(spec["graph"]["edges"])
+    spec["transform"] = {"idmap": draw(st.lists(st.integers(0, 40), min_size=n, max_size=n, unique=True)),
+                         "node_order": list(draw(st.permutations(range(n)))),
+                         "edge_order": list(draw(st.permutations(range(ne)))),
+                         "edge_flip": [draw(st.booleans()) for _ in range(ne)]}
+    return spec
+
+
 def strategy(tier):
-    return st.one_of(_strategy(), _strategy(), _strategy(), _strategy(), _strategy(), _strategy(), _strategy(), _dna())
+    return st.one_of(_strategy(), _strategy(), _strategy(), _strategy(), _strategy(), _strategy(), _strategy(), _dna(),
+                     _multires())
 
 
 def check_dna(spec, ctx):
